@@ -71,6 +71,9 @@ def enumerate_cases():
         if deleg == "none" and avis:
             continue
         out.append(dict(kind="trait", req=tvis, item_vis=avis, deleg=deleg))
+        # the exporting macro on a trait (round 19): the delegation-target trait still takes the visibility of the original trait
+        if deleg != "none" or not tvis:
+            out.append(dict(kind="trait", req=tvis, item_vis=avis, deleg=deleg, macro="entrait_export"))
     return out
 
 
@@ -104,7 +107,7 @@ def build(cid, spec):
         flav = zlib.crc32(cid.encode()) % 3
         inner = ["", "\n    //! inner docs of the trait\n    #![allow(unused_variables)]\n   ", ""][flav]
         outer = ["", "", "/// docs of the trait\n#[allow(dead_code)]\n"][flav]
-        inv = "#[::entrait::entrait(%s)] /*@inv*/\n%s%s trait Tr {%s fn f(&self) -> i32; }" % (a.strip(), outer, req, inner)
+        inv = "#[::entrait::%s%s] /*@inv*/\n%s%s trait Tr {%s fn f(&self) -> i32; }" % (macro, "(%s)" % a.strip() if (a.strip() or macro == "entrait") else "", outer, req, inner)
 
     def obs(point):
         path = POINTS[point][1].replace("CID", cid)
